@@ -526,6 +526,18 @@ def _model_to_dict(model, enc, bvmode):
             out[name] = bool(z3.is_true(model.eval(z3.Bool(name), model_completion=True)))
         elif n.op == 'avar':
             out[name] = str(model.eval(enc.memo[n.id], model_completion=True))[:2000]
+            # the words of a declared finite array, for native replay
+            ln = (_arr_info.get(name) or (None,))[0]
+            if isinstance(ln, int) and 0 < ln <= 4096:
+                try:
+                    arr = enc.memo[n.id]; isort = arr.sort().domain()
+                    words = []
+                    for i in range(ln):
+                        idx = z3.BitVecVal(i, isort.size()) if z3.is_bv_sort(isort) else z3.IntVal(i)
+                        words.append(model.eval(z3.Select(arr, idx), model_completion=True).as_long())
+                    out[name + '#words'] = words
+                except Exception:
+                    pass
     return out
 
 
